@@ -13,6 +13,10 @@ lemma for the successful case:
 namespace Ivg.DecL
 open Ivg Num Dec Codec
 
+deriving instance DecidableEq for Ivg.Dec.Item
+deriving instance DecidableEq for Ivg.Dec.Metadata
+deriving instance DecidableEq for Except
+
 /-- concatenated byte columns of the disassembly lines among `its` -/
 def bytesOf (its : List Item) : Bytes := (linesOf its).flatMap (·.bytes)
 
@@ -411,12 +415,37 @@ theorem decodeRep_calls (op : RepOp) (src : Bytes) : callsOf (decodeRep op src).
   | nil => rfl
   | cons l ls ih => simpa using ih
 
-/-- `Grouped pend its`: `its` is a sequence of groups `lines ++ [call c]` in which each call is the one
-    the reader `callOfLines` reconstructs from the printed lines of its group (and is not a `Reset`);
-    `pend` are line kinds of the first group that were emitted before `its`. -/
+/-- the line kinds of one group: an instruction line followed by operand (non-instruction) lines -/
+def GroupShape (g : List LineKind) : Prop :=
+  ∃ k ops, g = k :: ops ∧ isInstrKind k = true ∧ ∀ o ∈ ops, isInstrKind o = false
+
+theorem kinds_noninstr : ∀ {its : List Item}, instrCount its = 0 → ∀ o ∈ kindsOf its, isInstrKind o = false
+  | [], _, o, ho => by simp at ho
+  | .call c :: r, h, o, ho => kinds_noninstr (its := r) (by simpa using h) o (by simpa using ho)
+  | .line l :: r, h, o, ho => by
+    rw [instrCount_line] at h
+    have h1 : isInstrKind l.kind = false := by
+      cases hk : isInstrKind l.kind
+      · rfl
+      · rw [hk] at h; simp at h
+    have h2 : instrCount r = 0 := by omega
+    simp only [kindsOf_line, List.mem_cons] at ho
+    rcases ho with rfl | ho
+    · exact h1
+    · exact kinds_noninstr h2 o ho
+
+theorem GroupShape.of_instr {k : LineKind} {its : List Item} (hk : isInstrKind k = true)
+    (hi : instrCount its = 0) : GroupShape ([k] ++ kindsOf its) :=
+  ⟨k, kindsOf its, rfl, hk, kinds_noninstr hi⟩
+
+/-- `Grouped pend its`: `its` is a sequence of groups `lines ++ [call c]`; each group consists of one
+    instruction line followed by operand lines, and its call is the one the reader `callOfLines`
+    reconstructs from the printed lines of the group (and is not a `Reset`); `pend` are line kinds of
+    the first group that were emitted before `its`. -/
 inductive Grouped : List LineKind → List Item → Prop
   | nil : Grouped [] []
   | cons {pend : List LineKind} {ls : List Line} {c : Call F32} {rest : List Item} :
+      GroupShape (pend ++ ls.map (·.kind)) →
       callOfLines (pend ++ ls.map (·.kind)) = some c → isReset c = false → Grouped [] rest →
       Grouped pend (ls.map Item.line ++ .call c :: rest)
 
@@ -424,33 +453,35 @@ theorem Grouped.append {pend : List LineKind} {a b : List Item} (ha : Grouped pe
     Grouped pend (a ++ b) := by
   induction ha with
   | nil => exact hb
-  | cons h hr _ ih =>
+  | cons hs h hr _ ih =>
     rw [List.append_assoc, List.cons_append]
-    exact .cons h hr ih
+    exact .cons hs h hr ih
 
 theorem Grouped.line {pend : List LineKind} {l : Line} {its : List Item}
     (h : Grouped (pend ++ [l.kind]) its) : Grouped pend (.line l :: its) := by
   generalize hp : pend ++ [l.kind] = p at h
   cases h with
   | nil => simp at hp
-  | cons hc hn hr =>
+  | cons hs hc hn hr =>
     rename_i ls c rest
     subst hp
-    have := @Grouped.cons pend (l :: ls) c rest (by simpa using hc) hn hr
+    have := @Grouped.cons pend (l :: ls) c rest (by simpa using hs) (by simpa using hc) hn hr
     simpa using this
 
 /-- a group from call-free items followed by the call -/
 theorem Grouped.single {pend : List LineKind} {its : List Item} {c : Call F32}
-    (hc : callsOf its = []) (h : callOfLines (pend ++ kindsOf its) = some c) (hn : isReset c = false) :
+    (hc : callsOf its = []) (hs : GroupShape (pend ++ kindsOf its))
+    (h : callOfLines (pend ++ kindsOf its) = some c) (hn : isReset c = false) :
     Grouped pend (its ++ [.call c]) := by
-  have := @Grouped.cons pend (linesOf its) c [] (by simpa [kindsOf] using h) hn .nil
+  have := @Grouped.cons pend (linesOf its) c [] (by simpa [kindsOf] using hs)
+    (by simpa [kindsOf] using h) hn .nil
   rwa [map_line_linesOf hc] at this
 
 theorem Grouped.no_reset {pend : List LineKind} {its : List Item} (h : Grouped pend its) :
     ∀ c ∈ callsOf its, isReset c = false := by
   induction h with
   | nil => simp
-  | cons hc hn _ ih =>
+  | cons _ hc hn _ ih =>
     intro c' hc'
     simp at hc'
     rcases hc' with rfl | hc'
@@ -494,12 +525,14 @@ theorem decodeReps_ok (op : RepOp) : ∀ (n : Nat) (first : Bool) {src : Bytes} 
         apply Grouped.line
         have e : its1 ++ Item.call c :: its' = (its1 ++ [.call c]) ++ its' := by simp
         rw [e]
-        exact (Grouped.single hc1 (by simpa [callOfLines_implicit] using hk1) hr1).append hg2
+        exact (Grouped.single hc1 (GroupShape.of_instr rfl hi1)
+          (by simpa [callOfLines_implicit] using hk1) hr1).append hg2
       · rintro rfl _ m
         simp only [if_true, List.nil_append]
         have e : its1 ++ Item.call c :: its' = (its1 ++ [.call c]) ++ its' := by simp
         rw [e]
-        exact (Grouped.single hc1 (by simpa [callOfLines_drawHdr] using hk1) hr1).append hg2
+        exact (Grouped.single hc1 (GroupShape.of_instr rfl hi1)
+          (by simpa [callOfLines_drawHdr] using hk1) hr1).append hg2
       · intro k
         unfold decodeReps
         simp only
@@ -592,7 +625,7 @@ theorem StepSpec.of_instr {f g : StepFn} {opcode : UInt8} {kind : LineKind} {res
     refine ⟨opcode :: pre, by simp, by simp, by simp [hb], by simp [hc], by simp [hc], ?_, ?_, ?_⟩
     · simp [hc, hi, hk]
     · apply Grouped.line
-      exact Grouped.single hc (by simpa using hcl) hr
+      exact Grouped.single hc (GroupShape.of_instr hk hi) (by simpa using hcl) hr
     · intro k
       rw [List.cons_append, hf]
       exact happ k
